@@ -177,11 +177,11 @@ impl<T: Copy + Clone + Number + Signed + std::fmt::Debug> Polynomial<T> {
             t.coeffs[ r.degree()? - v.degree()? ] = lead / v.coeffs[ v.degree()? ];
             q = q + t.clone();
             r = r - ( t * v.clone() );
-            // The leading term of r cancels by construction. A rounding residue that is absorbed by the
-            // coefficient it came from is cleared explicitly, otherwise it keeps the degree from dropping,
-            // shrinks until lead / lead(v) underflows and stalls the loop until the iteration cap.
+            // The leading term of r cancels by construction, so it is cleared explicitly. A rounding residue
+            // left there keeps the degree from dropping, shrinks until lead / lead(v) underflows and stalls
+            // the loop until the iteration cap.
             let top = r.coeffs.len() - 1;
-            if lead + r.coeffs[ top ] == lead { r.coeffs[ top ] = T::zero(); }
+            r.coeffs[ top ] = T::zero();
             r.trim();
             q.trim();
             count += 1;
